@@ -723,6 +723,11 @@ class PyCdlib:
         Returns:
          Nothing.
         """
+        if extent < 0:
+            # Only a damaged ISO leads here (a location computed from a size
+            # that is too small, say); a file object may answer a negative
+            # offset with ValueError or with OSError.
+            raise pycdlibexception.PyCdlibInvalidISO('Invalid extent location on the ISO')
         self._cdfp.seek(extent * self.logical_block_size)
 
     @functools.lru_cache(maxsize=256)
